@@ -261,6 +261,15 @@ pub fn check_trace(s: &Script, tr: &Trace, rep: &mut Report) -> Outcome {
                                 }
                             }
                         }
+                        Some(other) if !only_update && other.expired(now) && o.events.iter().any(|e| matches!(e.kind, EvKind::Cb { kind: CB_EVICT, id: i, .. } if i == other.id)) => {
+                            // the colliding owner's TTL had elapsed and it was reclaimed before the buffered item
+                            // was handled (a sweep on the admission path): first insert of an absent key
+                            rep.count("ls_insert_on_index_of_expired_owner_admitted_after_reclaim");
+                            if ret != Some(true) {
+                                fail!("C04", "insert/returned-false", "{} returned {ret:?} with an empty buffer", step.short());
+                            }
+                            new_admission = Some((index, Ent { key: k, id, conflict, aux, charge, charge_known: true, t_ins: now, d: ttl_ns }));
+                        }
                         Some(other) => {
                             // another key owns this index (collision): it must not be disturbed
                             step_is_update = true;
